@@ -86,6 +86,43 @@ func c20Combinations(c *core.Case) {
 			}
 		}
 	}
+	// the same enumeration with a callback that appends to the slice it is handed (append(subset, x) is what a caller
+	// building a larger tuple writes; it never changes the elements of the subset itself)
+	var again [][]int64
+	runaway := false
+	func() {
+		defer func() {
+			if recover() != nil {
+				runaway = true
+			}
+		}()
+		common.Combinations(n, k, func(p []int64) {
+			if len(again) > len(all)+4 {
+				panic("too many visits")
+			}
+			again = append(again, append([]int64{}, p...))
+			_ = append(p, int64(len(again))-3)
+		})
+	}()
+	c.Call()
+	same := !runaway && len(again) == len(all)
+	for j := 0; same && j < len(all); j++ {
+		for q := range all[j] {
+			if len(again[j]) != len(all[j]) || again[j][q] != all[j][q] {
+				same = false
+			}
+		}
+	}
+	if !same {
+		c.Fail("combinations-callback-append", nil, "Combinations(%d,%d) with a callback that appends to its argument visits %d subsets (first %v), with a read-only callback %d", n, k, len(again), trunc2(again, 4), len(all))
+	}
+}
+
+func trunc2(l [][]int64, n int) [][]int64 {
+	if len(l) > n {
+		return l[:n]
+	}
+	return l
 }
 
 type c20S struct {
@@ -270,6 +307,7 @@ func runC20(c *core.Case) {
 				v2[i] = r.Range(-int64(n), int64(n))
 			}
 			c.Tag("very-long-lists")
+			c.Procs()
 			if !setLaws(c, "[]int64(very long)", v1, v2[:64]) || !setLaws(c, "[]int64(very long, swapped)", v2[:64], v1) {
 				return
 			}
